@@ -28,10 +28,10 @@ type BodyCtx struct {
 	// by this body or inherited from an enclosing body that enables it.
 	DynamicOn bool
 	Depth     int
-	Block    *hclsyntax.Block // enclosing block (nil for the root body)
-	BlockM   *m.BlockM        // its schema (nil for the root body or unknown blocks)
-	Sel      Selection
-	Parent   *BodyCtx
+	Block     *hclsyntax.Block // enclosing block (nil for the root body)
+	BlockM    *m.BlockM        // its schema (nil for the root body or unknown blocks)
+	Sel       Selection
+	Parent    *BodyCtx
 }
 
 // Effective computes the effective schema of a block's body.
